@@ -29,6 +29,8 @@ type Op struct {
 	CrashLabel  string   `json:"crashLabel,omitempty"`
 	Unpinned    bool     `json:"unpinned,omitempty"` // run with every CPU (the parallel runner); crash ops are always pinned to one CPU
 	PreferIndex bool     `json:"preferIndex,omitempty"`
+	// build under a write fault: after the load every write beyond this many bytes fails (EFBIG) until the Run returns
+	WriteLimit int `json:"writeLimit,omitempty"`
 	// gc while some package's BUILD file does not load: the collection has to fail without touching a record (or keep
 	// every record of what exists once the file is repaired)
 	ExpectFail bool `json:"expectFail,omitempty"`
@@ -77,6 +79,7 @@ type Obs struct {
 	RawRecords map[string]string  // file relative to .dawn/build → bytes
 	BadRecords []string           // record files that do not decode
 	Temps      int
+	Strays     []string // entries directly under .dawn/build that dawn does not keep there
 	Index      string // a | t | g
 	IndexLbls  []string
 	Gens       map[string]string // generated path → content ("" = missing is absent from the map)
@@ -282,6 +285,15 @@ func scan(root string, genPaths []string, o *Obs) {
 	}
 	es, _ := os.ReadDir(filepath.Join(work, "temp"))
 	o.Temps = len(es)
+	if top, err := os.ReadDir(work); err == nil {
+		for _, e := range top {
+			switch e.Name() {
+			case "targets", "sources", "temp", "index.json":
+			default:
+				o.Strays = append(o.Strays, e.Name())
+			}
+		}
+	}
 	b, err := os.ReadFile(filepath.Join(work, "index.json"))
 	switch {
 	case err != nil:
@@ -617,7 +629,27 @@ func (r *runner) playIn(h *History, po playOpts, root string) *played {
 				return res
 			}
 			switch e.Kind {
+			case "retarget":
+				for _, t := range p.Tgts {
+					for _, s := range p.srcsOf(t) {
+						if strings.HasPrefix(e.Path, s+"/") {
+							dirty[s] = true
+						}
+					}
+				}
 			case "content", "create", "delete", "rename", "samecontent", "touch":
+				// a source directory that holds a link to the edited file has to be re-read as well
+				for l, ref := range p.Links {
+					if ref == e.Path {
+						for _, t := range p.Tgts {
+							for _, s := range p.srcsOf(t) {
+								if strings.HasPrefix(l, s+"/") {
+									dirty[s] = true
+								}
+							}
+						}
+					}
+				}
 				if p.hasGlob() && e.Kind != "samecontent" && e.Kind != "touch" {
 					defsDirty = true // what a glob matches, and with it the declared sources, may have changed
 				}
@@ -631,6 +663,8 @@ func (r *runner) playIn(h *History, po playOpts, root string) *played {
 				}
 			case "delgen":
 				emit(fmt.Sprintf("file %d m", n.path(e.Path)), "ok")
+			case "junkwork":
+				// stray entries directly under .dawn/build: nothing the model knows of
 			case "junktemp":
 				emit(fmt.Sprintf("temps %d", e.Val), "ok")
 			case "break", "unbreak":
@@ -672,7 +706,7 @@ func (r *runner) playIn(h *History, po playOpts, root string) *played {
 		case "build":
 			flush()
 			spec := childSpec{Root: root, Op: "build", Target: op.Target, Always: op.Always, Dry: op.Dry, Fail: op.Fail,
-				CrashAt: op.CrashAt, CrashPhase: op.CrashPhase}
+				CrashAt: op.CrashAt, CrashPhase: op.CrashPhase, WriteLimit: op.WriteLimit}
 			crash := op.CrashAt > 0 || op.CrashHook != ""
 			if op.CrashHook != "" && op.CrashPhase == "load" {
 				// the first hit of a named hook point for a named target during the load (e.g. the very first save of a record)
